@@ -107,7 +107,7 @@ static void in_child(void (*fn)(char *), char *arg, int timeout_s)
     ofd = memfd_create("obs", 0);
     fflush(stdout);
     pid_t pid = fork();
-    if (pid == 0) { alarm(timeout_s); quiet(); fn(arg); _exit(0); }
+    if (pid == 0) { hc_alarm(timeout_s); quiet(); fn(arg); _exit(0); }
     int st = 0; waitpid(pid, &st, 0);
     { char tn[128]; snprintf(tn, sizeof tn, "/tmp/verif-vpmap-%d.txt", (int)pid); unlink(tn); }
     lseek(ofd, 0, SEEK_SET);
